@@ -91,13 +91,23 @@ Build(c) ==
                                   slots |-> slots]) @@ regs]
 
 Contents == UNION {[S -> Vals] : S \in SUBSET Keys}
-NoContent == CHOOSE c \in Contents : DOMAIN c = {}
 TrieOf  == [c \in Contents |-> IF DOMAIN c = {} THEN [id |-> M!NoRoot, reg |-> <<>>] ELSE Build(c)]
-RootOf  == [c \in Contents |-> TrieOf[c].id]
-Reg     == FoldSet(LAMBDA c, a : TrieOf[c].reg @@ a, <<>>, Contents)      \* every node of the universe
-RegTbl  == [n \in DOMAIN Reg |-> [kids |-> Reg[n].kids, count |-> 0, active |-> TRUE, since |-> 0, ok |-> TRUE]]
-OccOf   == [c \in Contents |-> M!Occ(RegTbl, RootOf[c])]                    \* occurrence bag of every trie
-NodeIds == DOMAIN Reg
+\* The tables of the universe are computed once, at start-up, and kept in a TLC register (TLC does not
+\* memoise definitions built on RECURSIVE operators; TLCEval normalises the lazily represented functions).
+Universe ==
+    LET rootOf == TLCEval([c \in Contents |-> TrieOf[c].id])
+        reg    == TLCEval(FoldSet(LAMBDA c, a : TrieOf[c].reg @@ a, <<>>, Contents))      \* every node of the universe
+        regTbl == TLCEval([n \in DOMAIN reg |-> [kids |-> reg[n].kids, count |-> 0, active |-> TRUE, since |-> 0, ok |-> TRUE]])
+    IN  [root |-> rootOf, reg |-> reg,
+         occ  |-> TLCEval([c \in Contents |-> TLCEval(M!Occ(regTbl, rootOf[c]))]),       \* occurrence bag of every trie
+         none |-> CHOOSE c \in Contents : DOMAIN c = {}]
+UnivReg == 11
+ASSUME TLCSet(UnivReg, Universe)
+univ   == TLCGet(UnivReg)
+RootOf == univ.root
+Reg    == univ.reg
+OccOf  == univ.occ
+NoContent == univ.none
 
 (***************************************************************************)
 (* State                                                                   *)
@@ -142,18 +152,16 @@ StartCount(v, n) ==
     ELSE IF BugStale THEN 0
     ELSE IF n \in DOMAIN v /\ (GCMode => v[n].active) THEN v[n].count ELSE 0
 
+\* (the \E x \in {e} bindings make TLC evaluate e once: LET definitions are re-evaluated at every use inside actions)
 Block(ch, commit, collapse) ==
-    LET index  == height + 1
-        newC   == ApplyCh(trieC, ch)
-        oldOcc == OccOf[trieC]
-        newOcc == OccOf[newC]
-        v      == View(top, disk)
-        dirty  == {n \in DOMAIN oldOcc \cup DOMAIN newOcc : BagAt(newOcc, n) # BagAt(oldOcc, n)}
-        cnt    == [n \in dirty |-> StartCount(v, n) + BagAt(newOcc, n) - BagAt(oldOcc, n)]
-        neg    == \E n \in dirty : cnt[n] < 0
-        wr     == [n \in dirty |-> IF cnt[n] > 0 THEN [count |-> cnt[n], active |-> TRUE, since |-> 0]
-                                   ELSE IF GCMode THEN [count |-> 0, active |-> FALSE, since |-> index] ELSE Tomb]
-        cache1 == [n \in (DOMAIN cache \ dirty) \cup {m \in dirty : cnt[m] > 0} |-> IF n \in dirty THEN cnt[n] ELSE cache[n]]
+    \E index \in {height + 1}, newC \in {ApplyCh(trieC, ch)}, v \in {View(top, disk)} :
+    \E oldOcc \in {OccOf[trieC]}, newOcc \in {OccOf[newC]} :
+    \E dirty \in {{n \in DOMAIN oldOcc \cup DOMAIN newOcc : BagAt(newOcc, n) # BagAt(oldOcc, n)}} :
+    \E cnt \in {[n \in dirty |-> StartCount(v, n) + BagAt(newOcc, n) - BagAt(oldOcc, n)]} :
+    \E wr \in {[n \in dirty |-> IF cnt[n] > 0 THEN [count |-> cnt[n], active |-> TRUE, since |-> 0]
+                                 ELSE IF GCMode THEN [count |-> 0, active |-> FALSE, since |-> index] ELSE Tomb]} :
+    \E cache1 \in {[n \in (DOMAIN cache \ dirty) \cup {m \in dirty : cnt[m] > 0} |-> IF n \in dirty THEN cnt[n] ELSE cache[n]]} :
+    LET neg    == \E n \in dirty : cnt[n] < 0
         cache2 == IF collapse # "none" THEN <<>> ELSE cache1
         exp2   == collapse # "full"
         died   == DOMAIN OccOf[latestC] \ DOMAIN newOcc
@@ -225,17 +233,16 @@ ReadVia(t, n, p) ==
                                    ELSE ReadVia(t, Reg[n].slots[Head(p) + 1], Tail(p))
 
 AbsInv ==
-    LET t == CurTbl
-        o == CurOcc
-    IN  /\ M!LatestPresent(t, o, GCMode)
+    \A t \in {CurTbl}, o \in {CurOcc}, kept \in {M!Retained(GCMode, height, G)} :
+        /\ M!LatestPresent(t, o, GCMode)
         /\ M!CountExact(t, o, GCMode)
         /\ IF GCMode THEN M!UnrefInactive(t, o) /\ M!SinceExact(t, o, deadAt) ELSE M!NoGarbage(t, o)
-        /\ \A h \in M!Retained(GCMode, height, G) : M!RootReadable(t, roots[h])
+        /\ \A h \in kept : M!RootReadable(t, roots[h])
         /\ \A h \in 0..height : \A k \in Keys :
-              IF h \in M!Retained(GCMode, height, G) THEN M!ReadExact(contAt[h], k, ReadVia(t, roots[h], k))
+              IF h \in kept THEN M!ReadExact(contAt[h], k, ReadVia(t, roots[h], k))
               ELSE M!ReadClean(contAt[h], k, ReadVia(t, roots[h], k))
 NoPanic == ~panic
 \* the cache protocol itself: a cached count is the stored one (this is what a dropped block breaks)
-CacheExact == \A n \in DOMAIN cache : LET v == View(top, disk) IN n \in DOMAIN v /\ v[n].active /\ v[n].count = cache[n]
+CacheExact == \A v \in {View(top, disk)} : \A n \in DOMAIN cache : n \in DOMAIN v /\ v[n].active /\ v[n].count = cache[n]
 ModuleTrieIsLatest == trieC = latestC
 =============================================================================
